@@ -73,6 +73,21 @@ def limitQuery : Option Nat → Option Str
 def printUri (dongle : Str) (channel : Nat) (rate : Rate) (address : Str) (limit : Option Nat) : Str :=
   mkUri dongle [natStr channel, rate.text, address] false (limitQuery limit)
 
+/-- the address the radio uses while scanning: its default when none (or the default) is asked for -/
+def scannedAddr : Option Nat → List Nat
+  | none => [0xE7, 0xE7, 0xE7, 0xE7, 0xE7]
+  | some a => beBytes5 a
+
+/-- `scan_interface(address)` writes the address into its URIs only when it is given and not the default -/
+def scanPlainAddr (address : Option Nat) : Bool :=
+  match address with
+  | none => true
+  | some a => a = 0xE7E7E7E7E7
+
+/-- the URI a scan reports for an answer on channel `c` at rate `r`: `radio://0/<c>/<rate>[/<ADDRESS IN HEX>]` -/
+def scanUri (address : Option Nat) (r : Rate) (c : Nat) : Str :=
+  mkUri ['0'] ([natStr c, r.text] ++ (if scanPlainAddr address then [] else [natHex true (address.getD 0)])) false none
+
 /-- How a URI names its dongle: the decimal index (fewer than ten digits, so below 10^9), or the serial number of an
 attached dongle in either case.  `devid` is the index `parse_uri` must return. -/
 inductive Dongle (serials : List Str) : Str → Nat → Prop
